@@ -448,9 +448,17 @@ func runBig(c caseT, d *defT, r *resT) {
 			r.miss("parse_float", "overflow", c, map[string]any{"text": txt, "got": gf, "true_value": total.String()})
 		}
 	}
-	// random floats: round trip within tolerance
-	for i := 0; i < c.Count; i++ {
-		x := math.Floor(rng.Float64()*math.Pow(10, float64(rng.Intn(15)))*1000) / 1000
+	// random floats: round trip within tolerance; first the quantities far below one base unit and just beside a
+	// unit boundary (whatever they print as, the text has to parse back to roughly the same number)
+	tiny := []float64{1e-12, 1e-9, 1e-7, 4.9e-7, 5e-7, 5.1e-7, 6e-7, 1e-6, 1.5e-6, 4e-4, 5e-4, 1e-3, 0.0015,
+		1.0000004, 59.9999996, 60.0000001, 3600.0000002, 1023.9999999, 1024.0000001, 999.9999995}
+	for i := 0; i < c.Count+len(tiny); i++ {
+		var x float64
+		if i < len(tiny) {
+			x = tiny[i]
+		} else {
+			x = math.Floor(rng.Float64()*math.Pow(10, float64(rng.Intn(15)))*1000) / 1000
+		}
 		for _, long := range []bool{false, true} {
 			var got, opname string
 			if long {
